@@ -226,14 +226,14 @@ func wrapIfContextDone(ctx context.Context, err error) error {
 	// the cause, which may well be an error with a code of its own.
 	ctxErr := ctx.Err()
 	if errors.Is(ctxErr, context.Canceled) {
-		if connectErr, ok := asError(err); ok && connectErr.Code() == CodeCanceled {
+		// (A cause may wrap io.EOF, too: the call didn't end, it was canceled.)
+		if connectErr, ok := asError(err); ok && connectErr.Code() == CodeCanceled && !errors.Is(err, io.EOF) {
 			return err
 		}
-		// (A cause may wrap io.EOF, too: the call didn't end, it was canceled.)
 		return NewError(CodeCanceled, hideEOF(err))
 	}
 	if errors.Is(ctxErr, context.DeadlineExceeded) {
-		if connectErr, ok := asError(err); ok && connectErr.Code() == CodeDeadlineExceeded {
+		if connectErr, ok := asError(err); ok && connectErr.Code() == CodeDeadlineExceeded && !errors.Is(err, io.EOF) {
 			return err
 		}
 		return NewError(CodeDeadlineExceeded, hideEOF(err))
